@@ -420,10 +420,13 @@ class Intersection:
         if denom != 0:  # Lines are not parallel
             param0 = diff0.cross(vector1) / denom
             param1 = diff0.cross(vector0) / denom
-            if param0 < 0 or 1 < param0:
+            tol = Intersection.tol_du  # end points hit within rounding error
+            if param0 < -tol or 1 + tol < param0:
                 return tuple()
-            if param1 < 0 or 1 < param1:
+            if param1 < -tol or 1 + tol < param1:
                 return tuple()
+            param0 = min(1, max(0, param0))
+            param1 = min(1, max(0, param1))
             return param0, param1
         # Lines are parallel
         if vector0.cross(diff0):
